@@ -46,6 +46,7 @@ def run(tier):
     for label, o, _, _ in variants[:3] if quick else variants:
         lines = rg.gen_mutants(rng, o, 2500 if quick else 20000)
         lines += rg.gen_long_tokens(rng, o, 800 if quick else 8000)
+        lines += rg.gen_duplicate_keys(rng, o)
         rk.run_feed(chk, wd, f"mutants-{label}", lines, None, [(label, bins[label])])
     return rk.finish(chk, "one evaluation = one (input, nesting limit, option set) case computed by TLC from "
                           "JsonReader.tla, given to the deserializer through one input kind; code, value and bytes "
